@@ -129,6 +129,25 @@ func opsFor(round, k int, jt, pt, tt reflect.Type) []c09Op {
 	tokdoc := []byte(fmt.Sprintf(`{"a":[1,{"b":%d},"x"],"c":{"d":[true,null]}}`, k))
 	return []c09Op{
 		{"json.Marshal", func() string { b, err := json.Marshal(jv.Interface()); return fmt.Sprintf("%s|%v", b, err) }},
+		{"json.Marshal(64 KiB and more, result held across other calls)", func() string {
+			// the result must stay what it was while this and other goroutines go on encoding: a result
+			// that still shares memory with a pooled encode buffer is overwritten by them
+			big := []any{k, bigPad[:66000+k%500], "end"}
+			want, _ := stdjson.Marshal(big)
+			b, err := json.Marshal(big)
+			for i := 0; i < 3; i++ {
+				runtime.Gosched()
+				json.Marshal([]any{"other", k, i})
+			}
+			if err != nil || !bytes.Equal(b, want) {
+				i := 0
+				for i < len(b) && i < len(want) && b[i] == want[i] {
+					i++
+				}
+				return fmt.Sprintf("%d bytes, differs from the expected %d at offset %d, err=%v", len(b), len(want), i, err)
+			}
+			return "stable"
+		}},
 		{"json.Unmarshal", func() string {
 			out := reflect.New(jt)
 			err := json.Unmarshal(jdoc, out.Interface())
@@ -341,6 +360,9 @@ func c09Stress(args []string) {
 		for k := 0; k < K; k++ {
 			for o := 0; o < nops; o++ {
 				want := ops[k][o].run()
+				if strings.Contains(ops[k][o].name, "result held") {
+					want = "stable" // this operation judges itself (against encoding/json): alone it must be stable too
+				}
 				for g := 0; g < *G; g++ {
 					total++
 					if results[g][k][o] != want {
